@@ -150,6 +150,39 @@ func validateCtxTrace(c *Ctx, name string, evs []ctxEvent) (accepted bool, lines
 	return false, len(evs), at, nil
 }
 
+// validateTrace runs TLC on a trace specification; returns accepted and the first unmatched line.
+func validateTrace(c *Ctx, module, cfg, file, name string, evs []ctxEvent) (bool, int, error) {
+	if len(evs) == 0 {
+		return true, 0, nil
+	}
+	var buf bytes.Buffer
+	enc := json.NewEncoder(&buf)
+	for _, e := range evs {
+		enc.Encode(e)
+	}
+	r, err := RunTLC(TLCOpts{Module: module, Cfg: cfg, Workers: 1, Seed: c.Seed, Timeout: 20 * time.Minute,
+		Files: map[string][]byte{file: buf.Bytes()}, NoCases: true}, nil)
+	if r != nil {
+		c.noteTLC(module+"/"+name, r, false)
+	}
+	if err != nil {
+		return false, 0, err
+	}
+	if len(r.Errors) > 0 && r.Violated == "" {
+		return false, 0, fmt.Errorf("%s: %s", module, strings.Join(r.Errors, " | "))
+	}
+	if r.Violated == "" {
+		return true, 0, nil
+	}
+	at := 0
+	for _, p := range append(r.PrintLines, r.Tail...) {
+		if i := strings.Index(p, "REJECTED_AT"); i >= 0 {
+			fmt.Sscanf(strings.TrimLeft(p[i+11:], "\", "), "%d", &at)
+		}
+	}
+	return false, at, nil
+}
+
 // recordRepoSuite runs the repository's own root-package tests, unedited, with the hooks on
 // and VERIF_TRACE_FILE set, and returns the recorded events.
 func recordRepoSuite() ([]ctxEvent, error) {
